@@ -274,7 +274,7 @@ def _vcf_events(seed):
             s = pos + rnd.randrange(0, 5)
             e = s + rnd.choice([0, 1, 1, 2, 3])
             alts = rnd.sample(["A", "C", "GT", "TTT", "G"], rnd.choice([1, 1, 2]))
-            ps = rnd.choice([None, None, 100, 200])
+            ps = rnd.choice([None, None, 0, 100, 200])   # PS=0 is a legal phase-set id
             recs.append(_Rec("chr1", s, e, alts, ps))
             desc.append([s, e, [list(a) for a in alts], ps if ps is not None else -1])
             pos = max(e, s + 1) + 1
